@@ -32,7 +32,16 @@ DESC_DEFS = {
     "z": ("c17/nested/z", [("string", "tag"), ("varint", "seq"), ("record", "inner"), ("record[]", "more")]),
     # shape h carries the data fields that path templates refer to ({record.host}, {record.n})
     "h": ("c17/h", [("string", "tag"), ("varint", "seq"), ("string", "host"), ("varint", "n")]),
+    # members of grouped records: shape g = GROUP[a/one, b/two], shape G = GROUP[a/uno, b/duo]: the same group name and
+    # the same flat field list, different member types
+    "a/one": ("a/one", [("string", "tag"), ("varint", "seq")]),
+    "b/two": ("b/two", [("string", "note"), ("bytes", "blob")]),
+    "a/uno": ("a/uno", [("string", "tag"), ("varint", "seq")]),
+    "b/duo": ("b/duo", [("string", "note"), ("bytes", "blob")]),
+    # Avro refusal histories: out-of-range integer / unencodable text sit at non-first fields
+    "v": ("c17/av", [("string", "tag"), ("varint", "seq"), ("varint", "big"), ("string", "text"), ("bytes", "blob")]),
 }
+GROUP_NAME = "c17/group"
 
 # adapter kinds.  fam = reader family, codec = compression of the file, shapes = descriptor shapes the format can hold
 KINDS = {
@@ -41,6 +50,7 @@ KINDS = {
     "stream.bz2": dict(fam="stream", ext=".records.bz2", codec="bz2", scheme=None, shapes="xyz"),
     "stream.lz4": dict(fam="stream", ext=".records.lz4", codec="lz4", scheme=None, shapes="xyz"),
     "stream.zst": dict(fam="stream", ext=".records.zst", codec="zst", scheme=None, shapes="xyz"),
+    "stream.zstd": dict(fam="stream", ext=".records.zstd", codec="zst", scheme=None, shapes="xyz"),
     "jsonfile": dict(fam="json", ext=".json", codec=None, scheme=None, shapes="xyz"),
     "avro": dict(fam="avro", ext=".avro", codec=None, scheme=None, shapes="x"),
     "sqlite": dict(fam="sqlite", ext=".db", codec=None, scheme="sqlite", shapes="xy"),
@@ -90,6 +100,26 @@ def make_record(rng, i, shape, generated=None, extra=None):
         r = _flat(rng, i)
     elif shape == "h":
         r = descriptor("h")(tag=_tag(rng, i), seq=i, **(extra or {}))
+    elif shape in "gG":
+        from flow.record import GroupedRecord
+
+        first, second = ("a/one", "b/two") if shape == "g" else ("a/uno", "b/duo")
+        members = [descriptor(first)(tag=_tag(rng, i), seq=i),
+                   descriptor(second)(note="n%d" % rng.randrange(1000), blob=bytes(rng.randrange(256) for _ in range(rng.choice([0, 2, 9]))))]
+        if generated is not None:
+            for m in members:
+                m._generated = generated
+        return GroupedRecord(GROUP_NAME, members)
+    elif shape in "vbs":
+        # v = a record Avro accepts; b = integer outside 'long' at the third field; s = text with a lone surrogate (a string
+        # built from non-UTF-8 bytes) at the fourth field
+        kw = {"tag": _tag(rng, i), "seq": i, "big": rng.choice([0, -1, 2**63 - 1, -(2**63), rng.randrange(2**40)]),
+              "text": rng.choice(["", "plain", "\u00fcn\u00ef"]), "blob": bytes(rng.randrange(256) for _ in range(rng.choice([0, 3, 30])))}
+        if shape == "b":
+            kw["big"] = rng.choice([2**63, -(2**63) - 1, 2**64 + 5])
+        elif shape == "s":
+            kw["text"] = rng.choice([b"caf\xe9", b"\xff\xfe tail", b"ok \x80"]).decode("utf-8", "surrogateescape")
+        r = descriptor("v")(**kw)
     elif shape == "y":
         items = None if rng.random() < 0.3 else ["i%d" % rng.randrange(100) for _ in range(rng.randint(0, 3))]
         r = descriptor("y")(seq=i, tag=_tag(rng, i), items=items)
@@ -105,14 +135,18 @@ def make_record(rng, i, shape, generated=None, extra=None):
     return r
 
 
-def make_records(seed, n, shapes, generated=None, extra=None):
-    """n records; the shape of each is drawn from `shapes` (a format that holds one type only gets a single shape).
-    generated: per-record _generated; extra: per-record field values for shape h."""
+def make_records(seed, n, shapes, generated=None, extra=None, shape_seq=None):
+    """n records; the shape of each is drawn from `shapes` (a format that holds one type only gets a single shape), or
+    taken from shape_seq (cyclically) when given.  generated: per-record _generated; extra: per-record field values for
+    shape h."""
     rng = random.Random(seed)
     out = []
     for i in range(n):
         g = generated[i] if generated is not None else None
-        out.append(make_record(rng, i, rng.choice(shapes), g, extra[i] if extra is not None else None))
+        shape = rng.choice(shapes)
+        if shape_seq:
+            shape = shape_seq[i % len(shape_seq)]
+        out.append(make_record(rng, i, shape, g, extra[i] if extra is not None else None))
     return out
 
 
@@ -128,7 +162,10 @@ def observe_all(records):
 
 
 def ident(o):
-    """(type name, tag, seq) of a record observation."""
+    """(type name, tag, seq) of a record observation; for a grouped record (group name, tag, seq of its first member)."""
+    if o and o[0] == "grouped":
+        first = ident(o[2][0]) if o[2] else (None, None, None)
+        return (o[1], first[1], first[2])
     s = observe.slots_of(o)
     t, q = s.get("tag"), s.get("seq")
     return (o[1], t[2] if isinstance(t, list) and len(t) > 2 else t, q[2] if isinstance(q, list) and len(q) > 2 else q)
@@ -239,7 +276,7 @@ def independent_read(fam, codec, path):
             rej.payload_empty = data == b""
             raise rej
         res["obs"] = [observe.normalise(o) for o in dec.records]
-        res["idents"] = [ident(o) if o[0] == "rec" else ("<grouped>", None, None) for o in res["obs"]]
+        res["idents"] = [ident(o) for o in res["obs"]]
         res["headers"] = dec.frame_kinds.count("HDR")
         return res
     if fam == "json":
